@@ -39,6 +39,16 @@ def renderVal : Val → List B
   | .str s => renderStr s
   | .ref id => bytes "<ref" ++ renderNat id ++ bytes ">"
   | .code is => [123] ++ renderInstrs is ++ [125]
+  | .ifv _ => bytes "<IF>"
+  | .whilev _ => bytes "<WHILE>"
+  | .forv _ _ _ _ => bytes "<FOR>"
+  | .sw _ _ _ _ => bytes "<SWITCH>"
+  | .ns _ => bytes "<NAMESPACE>"
+  | .withv _ => bytes "<WITH>"
+  | .exc _ => bytes "<EXCEPTION>"
+  | .script _ => bytes "<SCRIPT>"
+  | .strace _ => bytes "<VM-STACKTRACE>"
+  | .mapref _ => bytes "<HASHMAP>"
   | .other tag => [60] ++ tag ++ [62]
 def renderInstr : Instr → List B
   | .push v => bytes "P:" ++ renderVal v
